@@ -17,7 +17,7 @@ def run(chk):
                 "non-trivial = at least two requests issued; distinct by event list")
     if getattr(chk, "model", None) is None:
         return chk.finish()
-    mons = [("cleanup", T.mon_cleanup)]
+    mons = [("cleanup", T.mon_cleanup), ("delivery", T.mon_delivery)]
     T.campaign(chk, 220 if thorough else 40, "cleanup", mons)
     T.campaign(chk, 120 if thorough else 20, "mixed", mons)
     extra(chk, thorough)
@@ -106,6 +106,40 @@ def extra(chk, thorough):
                 flat = [x for st in out for x in st]
                 if not (any(x.startswith("E:1:R:") for x in flat) and any(x.startswith("E:2:R:") for x in flat)) or nl != 0:
                     bad2 = bad2 or (kind, variant, [str(e) for e in pre], [x for x in flat if x.startswith("E:")], nl)
+    # two requests for the same command outstanding; the LATER one ends first (cancelled while queued / while waiting,
+    # or by its own shorter timeout): its clean-up must remove ITS waiter - the earlier request still gets its response
+    bad3 = None
+    n3 = 0
+    later_first = [
+        ("nb1", "nb1", [("issue", 1, "nb1"), ("issue", 2, "nb1"), ("ack", -1), ("ack", -1), ("cancel", 2), ("rsp", "nb1"), ("tick", 6000)]),
+        ("nb1", "nb1", [("issue", 1, "nb1"), ("issue", 2, "nb1"), ("cancel", 2), ("ack", -1), ("ack", -1), ("rsp", "nb1"), ("tick", 6000)]),
+        ("b1", "b1", [("issue", 1, "b1"), ("issue", 2, "b1"), ("cancel", 2), ("ack", -1), ("rsp", "b1"), ("tick", 6000)]),
+        ("b1", "b1", [("issue", 1, "b1"), ("ack", -1), ("issue", 2, "b1"), ("cancel", 2), ("rsp", "b1"), ("tick", 6000)]),
+        ("nb1", "nb1s", [("issue", 1, "nb1"), ("ack", -1), ("tick", 1000), ("issue", 2, "nb1s"), ("ack", -1), ("tick", 2500), ("rsp", "nb1"), ("tick", 6000)]),
+        ("nb2", "nb2", [("issue", 1, "nb2"), ("issue", 2, "nb2"), ("ack", -1), ("ack", -1), ("cancel", 2), ("ack", -1), ("rsp", "nb2"), ("tick", 6000)]),
+    ]
+    for k1, k2, evs in later_first:
+        for pre in ([], [("issue", 9, "nb1b")]):
+            r = A.Runner()
+            try:
+                out = []
+                for e in list(pre) + evs:
+                    if e == ("ack", -1):
+                        e = ("ack", r.proto._pack_seq)
+                    out.append(r.step(e))
+                nl = r.listeners()
+            finally:
+                r.close()
+            n3 += 1
+            chk.evaluations += 1
+            flat = [x for st in out for x in st]
+            left = nl - (1 if pre else 0) if not any(x.startswith("E:9:") for x in flat) else nl
+            if not any(x.startswith("E:1:R:") for x in flat) or left != 0:
+                bad3 = bad3 or (k1, k2, [str(e) for e in list(pre) + evs], [x for x in flat if x.startswith("E:")], left)
+    chk.oblige("monitor:later-request-ends-first-earlier-still-served(%d scenarios)" % n3, bad3 is None, json.dumps(bad3)[:300] if bad3 else "")
+    if bad3:
+        chk.violation("two requests for one command, the later one ended first: request 1 did not get its response or a stale "
+                      "listener stayed registered (%d): endings %s" % (bad3[4], bad3[3]), {"case": bad3}, key="later-first:%s:%s" % (bad3[0], bad3[1]))
     chk.oblige("monitor:two-responses-in-one-read-chunk(%d scenarios)" % n2, bad2 is None, json.dumps(bad2)[:300] if bad2 else "")
     if bad2:
         chk.violation("two responses in one read chunk (%s, %s): a request did not get its response or a listener stayed "
